@@ -92,6 +92,9 @@ Proof.
   unfold sub_range, in_range. rewrite andb_true_iff, !Z.leb_le. lia.
 Qed.
 
+Lemma meet_sub_spec a b c d v : meet_sub a b c d = true -> in_range a v -> in_range b v -> in_range c v /\ in_range d v.
+Proof. unfold meet_sub, in_range. rewrite andb_true_iff, !Z.leb_le. lia. Qed.
+
 Lemma ity_eqb_eq a b : ity_eqb a b = true -> a = b.
 Proof. destruct a, b; cbn; congruence. Qed.
 
